@@ -255,21 +255,16 @@ func (t *Thread) Yield(args []Value) ([]Value, error) {
 // This turns off the thread, cleaning up its close stack.  The thread must be
 // running.
 func (t *Thread) end(args []Value, err error, exception interface{}) {
-	caller := t.caller
 	t.mux.Lock()
-	caller.mux.Lock()
-	defer t.mux.Unlock()
-	defer caller.mux.Unlock()
-	switch {
-	case t.status != ThreadOK:
+	if t.status != ThreadOK {
 		panic("Called Thread.end on a non-running thread")
-	case caller.status != ThreadOK:
-		panic("Caller thread of ending thread is not OK")
 	}
-	close(t.resumeCh)
-	t.status = ThreadDead
-	t.caller = nil
-	verifThread("dead", t, caller)
+	t.mux.Unlock()
+
+	// The pending __close handlers run in this thread, which is still running
+	// at this point.  They must run without holding the mutexes, as they are
+	// free to call coroutine functions, including on this thread (e.g. an
+	// attempt to resume or close it fails because it is running).
 	if _, terminated := exception.(ContextTerminationError); terminated {
 		// The context was terminated: there are no resources to run the
 		// pending __close handlers, so discard them (as CallContext does).
@@ -293,7 +288,25 @@ func (t *Thread) end(args []Value, err error, exception interface{}) {
 			err = t.cleanupCloseStack(nil, 0, err) // TODO: not nil
 		}()
 	}
+
+	// Now the thread can die.
+	t.mux.Lock()
+	caller := t.caller
+	caller.mux.Lock()
+	switch {
+	case t.status != ThreadOK:
+		panic("Called Thread.end on a non-running thread")
+	case caller.status != ThreadOK:
+		panic("Caller thread of ending thread is not OK")
+	}
+	close(t.resumeCh)
+	t.status = ThreadDead
+	t.caller = nil
 	t.closeErr = err
+	verifThread("dead", t, caller)
+	caller.mux.Unlock()
+	t.mux.Unlock()
+
 	// Release before handing control back: once the caller has received the
 	// values it runs concurrently with this goroutine, which must no longer
 	// touch the runtime context.
